@@ -60,7 +60,7 @@ CHECKS = {
     "C08": dict(
         technique="Lean 4 proof (errors of the instrumented semantics are independent of scalar data: oob_data_independent) + exhaustive shape runs per kernel",
         text=("bounds_sound: one error-free run over the one-point scalar domain with arrays of exactly the contract extents proves absence of out-of-bounds "
-              "reads/writes for ALL scalar inputs; the check enumerates the valid (entity, permutation) tuples of every kernel of the corpus — all of them up to 300 (quick) / 4000 (thorough) per kernel, beyond that every tuple at an extreme value of either argument plus a seeded sample (hexahedron / tetrahedron interior facets; listed in the evidence). Extents come from "
+              "reads/writes for ALL scalar inputs; the check enumerates the valid (entity, permutation) tuples of every kernel of the corpus — all of them up to 300 (quick) / 1200 (thorough) per kernel, beyond that every tuple at an extreme value of either argument plus a seeded sample (hexahedron / tetrahedron interior facets; listed in the evidence). Extents come from "
               "UFL/Basix, not from FFCx's IR. C kernels additionally run with NaN sentinels/canaries."),
         design="DESIGN.md §6 C08"),
     "C09": dict(
